@@ -6,7 +6,7 @@ import shutil
 import tempfile
 
 from engine import SPEC, gen_states, pool_map
-from readers import join_lines, run_cli, split_tag, write_text
+from readers import join_lines, run_cli, split_tag, write_text, workdir
 
 DATA = json.load(open(os.path.join(SPEC, "data", "phase_pool.json")))
 
@@ -26,7 +26,7 @@ def run_case(job):
     import readers as _rd
 
     _rd.CASE = str(cid)
-    d = tempfile.mkdtemp(prefix="phase_")
+    d = workdir("phase_", cid)
     try:
         gaf = os.path.join(d, "a.gaf" + (".gz" if storage == "bgzf" else ""))
         lines = [gaf_line(r, k) for k, r in enumerate(recs)]
